@@ -165,6 +165,16 @@ func runRealInformers(o checks.Opts) *report.Report {
 		rep.Fault = "second source start: " + err.Error()
 		return rep
 	}
+	// ... and a slow one that does the same, so that under a burst of events its queue is never
+	// empty: whenever Free takes the cache lock, a delivery to it is under way or pending
+	slow := handler.Funcs{CreateFunc: func(_ context.Context, _ event.CreateEvent, _ workqueue.TypedRateLimitingInterface[reconcile.Request]) {
+		time.Sleep(3 * time.Millisecond)
+		c.OwnersForGKV(cmGVK)
+	}}
+	if err := c.Source(slow).Start(mgrCtx, q); err != nil {
+		rep.Fault = "third source start: " + err.Error()
+		return rep
+	}
 	if err := c.Start(mgrCtx); err != nil {
 		rep.Fault = "cache start: " + err.Error()
 		return rep
